@@ -66,10 +66,11 @@ DESIGN_THOROUGH = ['MC_Carver_quick.cfg', 'MC_Carver_thorough.cfg', 'MC_Carver_n
                    'MC_Carver_dev_thorough.cfg', 'MC_Carver_kruskal_thorough.cfg']
 
 
-def design_runs(ctx: Ctx, invariants_of_interest):
+def design_runs(ctx: Ctx, invariants_of_interest, thorough=None):
     """Model-check Carver.tla (all invariants are checked; the evidence names the ones that carry
-    this property)."""
-    cfgs = DESIGN_QUICK if ctx.tier == 'quick' else DESIGN_THOROUGH
+    this property).  `thorough`: the large configurations this property runs in the thorough tier
+    (default: all of them; every large configuration is run by C01)."""
+    cfgs = DESIGN_QUICK if ctx.tier == 'quick' else (thorough or DESIGN_THOROUGH)
     for cfg in cfgs:
         r = tlc.run_mc('MC_Carver', cfg, timeout=3600, coverage=(ctx.tier == 'quick'), heap='12g')
         ctx.add_design(r)
